@@ -787,7 +787,9 @@ class PerceptionAnalyzerBase(ABC):
                 num_tp = self.get_num_tp(df=df, label=label)
                 num_fp = self.get_num_fp(df=df, label=label)
                 num_det = num_tp + num_fp  # If all FN, num_det = 0
-                data["TP"][i] = num_tp / num_ground_truth
+                # NOTE: count TP by GT label, the label of a TP estimation can differ from GT's with the label policy
+                num_tp_gt = sum(self.get_ground_truth(df=df, label=label)["status"] == "TP")
+                data["TP"][i] = num_tp_gt / num_ground_truth
                 data["FP"][i] = num_fp / num_det if num_det != 0 else 0.0  # False Discovery Rate
                 data["TN"][i] = self.get_num_tn(df=df, label=label) / num_ground_truth
                 data["FN"][i] = self.get_num_fn(df=df, label=label) / num_ground_truth
